@@ -1,6 +1,6 @@
 (* Non-vacuity of the C08 theorems: concrete inputs meeting every hypothesis. *)
 From GL Require Import Common.Bytes Front.Lines Front.Lexer Front.LexerFacts Front.LinesFacts
-  Front.Render Front.RenderFacts.
+  Front.Render Front.RenderFacts Front.Ast Front.Parser Front.Printer Front.ParserFacts.
 Open Scope Z_scope.
 
 (* "x=1 --c" + LF + "y" : a token is delivered and bytes are consumed *)
@@ -58,3 +58,38 @@ Proof. split; vm_compute; reflexivity. Qed.
 (* the separator may be empty exactly where nothing merges: "x=" is fine, "x1" is not two lexemes *)
 Example ex_merge_rejected : good [([], LxName [120]); ([], LxNumber [49])] [] = false.
 Proof. reflexivity. Qed.
+
+(* reference parser: a tree with optional ";" and redundant parentheses:
+     a = ((1 + 2)) * (b) ; (f)("s") ; return (g()), (...)        (x = [120], etc.) *)
+Definition ex_tree : block :=
+  BCons (SAssign (ELCons (EName [97]) ELNil)
+           (ELCons (EBin OpMul (EParen (EParen (EBin OpAdd (ENumber [49]) (ENumber [50])))) (EParen (EName [98]))) ELNil)) true
+  (BCons (SCall (ECall (EParen (EName [102])) (AString [115]))) false
+  (BLast (LReturn (ELCons (EParen (ECall (EName [103]) (AList ELNil))) (ELCons (EParen EVararg) ELNil))) true)).
+
+Example ex_tree_wf : wf_b ex_tree = true.
+Proof. reflexivity. Qed.
+
+Example ex_tree_roundtrip :
+  parse (print ex_tree) = ParseOk (norm_b ex_tree) /\ parse_d gopher (print ex_tree) = ParseOk (norm_b ex_tree)
+  /\ norm_b ex_tree <> ex_tree /\ length (print ex_tree) = 29%nat.
+Proof. repeat split; try (vm_compute; reflexivity). vm_compute. discriminate. Qed.
+
+(* the normal form keeps (g()) and (...) and drops the other parentheses and the ";" flags *)
+Example ex_tree_norm :
+  norm_b ex_tree =
+  BCons (SAssign (ELCons (EName [97]) ELNil)
+           (ELCons (EBin OpMul (EBin OpAdd (ENumber [49]) (ENumber [50])) (EName [98])) ELNil)) false
+  (BCons (SCall (ECall (EName [102]) (AString [115]))) false
+  (BLast (LReturn (ELCons (EParen (ECall (EName [103]) (AList ELNil))) (ELCons (EParen EVararg) ELNil))) false)).
+Proof. reflexivity. Qed.
+
+(* a normal tree *)
+Example ex_normal : normal (norm_b ex_tree) /\ wf_b (norm_b ex_tree) = true.
+Proof. split; reflexivity. Qed.
+
+(* the two dialects differ on what Lua 5.1 rejects: ";;", "{a,,b}", "(f())", "(" on a new line *)
+Example ex_dialects :
+  parse [tk 59; tk 59] = ParseErr PSyntax /\ parse_d gopher [tk 59; tk 59] = ParseOk BNil
+  /\ parse [tname [102]; (40, [], true); tk 41] = ParseErr PAmbiguous.
+Proof. repeat split; vm_compute; reflexivity. Qed.
